@@ -95,7 +95,7 @@ class Gen:
         names = sorted(d['acts'], key=lambda s: s.encode())
         for i, n in enumerate(names):
             parents = []
-            for p in r.sample(names[:i], r.choice([0, 0, 1, 2]) if i else 0):      # parents among earlier names: no cycles
+            for p in r.sample(names[:i], min(i, r.choice([0, 0, 1, 2]))):      # parents among earlier names: no cycles
                 k = r.random()
                 parents.append([S('' if k < 0.5 else self.q(ns, 'Action') if k < 0.8 else 'Action'), S(p)])
             ap = 'none'
